@@ -501,7 +501,7 @@ func concPart(tier string) runner.Part {
 	return runner.Part{Name: "sched", Shards: len(scs), Run: func(c *runner.Ctx) *runner.Result {
 		res := &runner.Result{Outcomes: map[string]int{}}
 		sc := scs[c.Shard]
-		st := vexp.Explore(concScenario(sc, c.Scratch), vexp.Options{PB: pb, DetChecks: 3, Deadline: c.Deadline})
+		st := vexp.Explore(concScenario(sc, c.Scratch), vexp.Options{PB: pb, FB: 2, DetChecks: 3, Deadline: c.Deadline})
 		res.Evaluations, res.States, res.Transitions = st.Executions, int64(st.StateKeys), st.Transitions
 		for o, n := range st.Outcomes {
 			res.Outcomes[o] += n
@@ -530,7 +530,7 @@ func concPart(tier string) runner.Part {
 			}
 			res.Samples = append(res.Samples, map[string]any{"scenario": sc.String(), "executions": st.Executions, "trace_head": t})
 		}
-		res.Extra = map[string]any{"preemption_bound_completed": pb}
+		res.Extra = map[string]any{"preemption_bound_completed": pb, "free_switch_bound": 2}
 		return res
 	}, Replay: func(c *runner.Ctx, raw json.RawMessage) (string, error) {
 		var r struct {
@@ -559,6 +559,18 @@ func main() {
 		return
 	}
 	runner.Main(runner.Check{
+		RacePass: func(n int, scratch string) (int, []string) {
+			total, ps := 0, []string(nil)
+			for _, sc := range concScens("quick") {
+				if sc.Cfg.StallAt > 0 {
+					continue
+				}
+				d, p := vexp.RacePass(concScenario(sc, scratch), n)
+				total += d
+				ps = append(ps, p...)
+			}
+			return total, ps
+		},
 		ID:          "C15",
 		Level:       "model_checking",
 		Rule:        "configs: 5 built layers (landmark with 1/2 prioritized files, no-prefetch landmark, no landmark, min-chunk shared streams) x prefetch size x async threshold x prefetch-chunk/registry-chunk x failure of the k-th registry request for every k, each run on the real layer stack over an in-memory registry with the request log as observation; sched: concurrent Prefetch / WaitForPrefetchCompletion / BackgroundFetch / reads with failures and stalls under the cooperative scheduler with virtual time; non-trivial = configurations whose outcome is decided by the fault or schedule",
